@@ -40,10 +40,12 @@ type Enum struct {
 
 // File is one proto file of the request.
 type File struct {
-	Name     string    `json:"name"` // e.g. "x.proto"
-	Package  string    `json:"package"`
-	Messages []Message `json:"messages"`
-	Enums    []Enum    `json:"enums"`
+	Name    string `json:"name"` // e.g. "x.proto"
+	Package string `json:"package"`
+	// PackageComment is the leading comment of the `package` statement (SourceCodeInfo path [2]); nil = none
+	PackageComment *string   `json:"packageComment,omitempty"`
+	Messages       []Message `json:"messages"`
+	Enums          []Enum    `json:"enums"`
 }
 
 // Request is the abstract CodeGeneratorRequest: dependency files first, the file to generate last.
